@@ -800,3 +800,229 @@ def _(ctx):
                 ctx.claim(ex, o.path.add(word == z3.StringVal(w)), f[0].t == want_round, "'N to %s' does not round N to the nearest integer (half away from zero)" % w, rp)
     if seen != set(table):
         ctx.failures.append(("number_type_convert: keywords without an Ok path: %s" % sorted(set(table) - seen), {}, None))
+
+
+# ============================================================================ C11
+@spec("C11", "m_time_calculate", "TimeItem::calculate (MIR -> SMT, chrono modelled): time + D / time - D for a non-negative duration D moves the clock by D modulo 24 h (the UTC instant moves by |D| mod 86400 s, the zone is kept); adding a negative duration moves it back; no panic for every time of years 1..9999 and every D in chrono's range")
+def _(ctx):
+    for op in ("Add", "Sub"):
+        ex = new_exec("real")
+        cfgv, item, other, me = calc_setup(ex, "TimeItem", ["DurationItem"])
+        t = me.field(0, "chrono::NaiveDateTime")
+        d = other.payload("DurationItem").field(0, "chrono::TimeDelta").secs
+        # keep one day of head-room at both ends of years 1..9999
+        ex.assumptions.append(z3.And(t.days >= 1, t.days <= 3652057))
+        outs = run_calc(ex, "TimeItem", item, cfgv, other, op)
+        ctx.part.functions += ["compiler::time::calculate", "compiler::duration::as_time"]
+        ctx.paths += len(outs)
+        rp = ("m_replay_time_calc", [(op == "Add", "bool"), (t.secs, "u32"), (d, "i64")])
+        n = 0
+        for o in outs:
+            if o.kind == "panic":
+                ctx.reachable(ex, o.path, "TimeItem %s DurationItem can panic: %s" % (op, o.msg), rp)
+                continue
+            it = some_item(o)
+            if it == "None" or it is None or it.kind != "TimeItem":
+                ctx.reachable(ex, o.path, "time %s duration is not a time" % op, rp)
+                continue
+            n += 1
+            r = it.f[0]
+            step = abs_(d) % 86400
+            if op == "Add":
+                want = z3.If(d >= 0, t.total() + step, t.total() - step)
+                ctx.claim(ex, o.path, r.total() == want, "time + D does not move the clock by D mod 24 h", rp)
+            else:
+                ctx.claim(ex, o.path.add(d >= 0), r.total() == t.total() - step, "time - D does not move the clock back by D mod 24 h", rp)
+        if not n:
+            ctx.failures.append(("TimeItem %s has no computed path" % op, {}, None))
+
+
+@spec("C11", "m_time_sub_negative", "time - D for a NEGATIVE duration D (e.g. D1 - D2 with D1 < D2) moves the clock forward by |D| mod 24 h")
+def _(ctx):
+    ex = new_exec("real")
+    cfgv, item, other, me = calc_setup(ex, "TimeItem", ["DurationItem"])
+    t = me.field(0, "chrono::NaiveDateTime")
+    d = other.payload("DurationItem").field(0, "chrono::TimeDelta").secs
+    ex.assumptions.append(z3.And(t.days >= 1, t.days <= 3652057, d < 0))
+    outs = run_calc(ex, "TimeItem", item, cfgv, other, "Sub")
+    ctx.part.functions.append("compiler::time::calculate")
+    ctx.paths += len(outs)
+    rp = ("m_replay_time_calc", [(False, "bool"), (t.secs, "u32"), (d, "i64")])
+    for o in outs:
+        if o.kind == "panic":
+            ctx.reachable(ex, o.path, "TimeItem Sub can panic: " + o.msg, rp)
+            continue
+        it = some_item(o)
+        if it == "None" or it is None:
+            ctx.reachable(ex, o.path, "time - duration is not computed", rp)
+            continue
+        ctx.claim(ex, o.path, it.f[0].total() == t.total() + abs_(d) % 86400, "time - (negative duration) moves the clock backwards instead of forwards", rp)
+
+
+def tz_fields(tok, variant):
+    """(naive utc DateTimeV/DateV, offset-minutes term) of a Time/Date/DateTime token"""
+    ty = {"Time": "chrono::NaiveDateTime", "DateTime": "chrono::NaiveDateTime", "Date": "chrono::NaiveDate"}[variant]
+    v = tok.payload(variant).field(0, ty)
+    off = tok.payload(variant).field(1, "types::TimeOffset").field(1, "i32")
+    return v, off.t
+
+
+@spec("C11", "m_convert_timezone", "convert_timezone (MIR -> SMT): converting a time / date / date-time to another zone keeps the instant and replaces the display zone by the target (name upper-cased, offset of the target), for all instants and all offsets; no panic")
+def _(ctx):
+    ex, fields, toks, args, cfgv, tkv = setup_rule("convert_timezone", "real")
+    outs, _ = run_fn(ex, "date_time_rules::convert_timezone", args)
+    ctx.part.functions.append("date_time_rules::convert_timezone")
+    ctx.paths += len(outs)
+    src = toks["time"]
+    tz = toks["timezone"]
+    tgt_off = tz.payload("Timezone").field(1, "i32").t
+    seen = set()
+    for o in outs:
+        if o.kind == "panic":
+            ctx.reachable(ex, o.path, "convert_timezone can panic: " + o.msg)
+            continue
+        if is_err(o):
+            ctx.reachable(ex, o.path, "convert_timezone declines although its pattern matched")
+            continue
+        variant, f = ok_payload(o)
+        seen.add(variant)
+        v, _off = tz_fields(src, variant)
+        same = (f[0].total() == v.total()) if isinstance(v, DateTimeV) else (f[0].days == v.days)
+        ctx.claim(ex, o.path, z3.And(tag_is(ex, src, variant), same), "convert_timezone changes the instant (or the kind) of a %s" % variant)
+        off = f[1]
+        got_off = off.f[1].t if isinstance(off, StructV) else None
+        if got_off is None:
+            raise Unsupported("TimeOffset value %r" % (off,))
+        ctx.claim(ex, o.path, got_off == tgt_off, "convert_timezone does not install the target zone's offset")
+    if seen != {"Time", "Date", "DateTime"}:
+        ctx.failures.append(("convert_timezone: kinds without an Ok path: %s" % sorted({"Time", "Date", "DateTime"} - seen), {}, None))
+
+
+@spec("C11", "m_time_with_timezone", "time_with_timezone (MIR -> SMT, chrono::Local modelled as one arbitrary fixed offset): re-anchoring a wall time in a zone keeps the wall reading - the result's local time in the target zone equals the source's local time in its own zone - for all times and all offsets within +-14 h")
+def _(ctx):
+    ex, fields, toks, args, cfgv, tkv = setup_rule("time_with_timezone", "real")
+    src, tz = toks["time"], toks["timezone"]
+    t, cur_off = tz_fields(src, "Time")
+    tgt_off = tz.payload("Timezone").field(1, "i32").t
+    ex.assumptions.append(z3.And(cur_off >= -14 * 60, cur_off <= 14 * 60, tgt_off >= -14 * 60, tgt_off <= 14 * 60, t.days >= 2, t.days <= 3652056))
+    outs, _ = run_fn(ex, "date_time_rules::time_with_timezone", args)
+    ctx.part.functions.append("date_time_rules::time_with_timezone")
+    ctx.paths += len(outs)
+    rp = ("m_replay_time_with_timezone", [(t.secs, "u32"), (cur_off, "i32"), (tgt_off, "i32")])
+    n = 0
+    for o in outs:
+        if o.kind == "panic":
+            ctx.reachable(ex, o.path, "time_with_timezone can panic: " + o.msg, rp)
+            continue
+        if is_err(o):
+            ctx.reachable(ex, o.path, "time_with_timezone declines although its pattern matched", rp)
+            continue
+        variant, f = ok_payload(o)
+        n += 1
+        if variant != "Time":
+            ctx.failures.append(("time_with_timezone returns a %s" % variant, {}, None))
+            continue
+        ctx.claim(ex, o.path, f[0].total() + tgt_off * 60 == t.total() + cur_off * 60, "the wall reading changes when a time is re-anchored in a zone", rp)
+        ctx.claim(ex, o.path, f[1].f[1].t == tgt_off, "the result does not carry the target zone's offset", rp)
+    if not n:
+        ctx.failures.append(("time_with_timezone has no Ok path", {}, None))
+
+
+# ============================================================================ C14
+TS_LO, TS_HI = -62135596800, 253402300799     # 0001-01-01 00:00:00 .. 9999-12-31 23:59:59
+
+
+@spec("C14", "m_unixtime_roundtrip", "from_unixtime / to_unixtime (MIR -> SMT, chrono modelled): 'N to date' is the instant N s after the epoch (zone: the requested one, else the configured one); '<date> as unix' is midnight UTC of the date, '<time|date-time> as unix' that instant; to_unixtime(from_unixtime(N)) = trunc(N) for all timestamps of years 1..9999; no panic in that range")
+def _(ctx):
+    # from_unixtime
+    ex, fields, toks, args, cfgv, tkv = setup_rule("from_unixtime", "real")
+    x = fval(toks["number"], "Number")
+    n = ex.f_to_int(x, 64, True).t
+    ex.assumptions.append(z3.And(n >= TS_LO, n <= TS_HI))
+    outs, _ = run_fn(ex, "date_time_rules::from_unixtime", args)
+    ctx.part.functions += ["date_time_rules::from_unixtime", "date_time_rules::to_unixtime"]
+    ctx.paths += len(outs)
+    rp = ("m_replay_unixtime", [(x.t, "f64")])
+    cnt = 0
+    for o in outs:
+        if o.kind == "panic":
+            ctx.reachable(ex, o.path, "from_unixtime can panic: " + o.msg, rp)
+            continue
+        if is_err(o):
+            ctx.reachable(ex, o.path, "from_unixtime declines although its pattern matched", rp)
+            continue
+        variant, f = ok_payload(o)
+        cnt += 1
+        if variant != "DateTime":
+            ctx.failures.append(("from_unixtime returns a %s" % variant, {}, None))
+            continue
+        ctx.claim(ex, o.path, f[0].total() - models.EPOCH_DAYS * 86400 == n, "'N to date' is not the instant N seconds after the epoch", rp)
+        has_tz = fields.has_key("timezone")
+        tgt = toks["timezone"].payload("Timezone").field(1, "i32").t
+        got_off = f[1].f[1].t
+        ctx.claim(ex, o.path, z3.Implies(has_tz, got_off == tgt), "'N to <zone>' does not show the requested zone", rp)
+    if not cnt:
+        ctx.failures.append(("from_unixtime has no Ok path", {}, None))
+    # to_unixtime
+    ex, fields, toks, args, cfgv, tkv = setup_rule("to_unixtime", "real")
+    outs, _ = run_fn(ex, "date_time_rules::to_unixtime", args)
+    ctx.paths += len(outs)
+    src = toks["data"]
+    seen = set()
+    for o in outs:
+        if o.kind == "panic":
+            ctx.reachable(ex, o.path, "to_unixtime can panic: " + o.msg)
+            continue
+        if is_err(o):
+            ctx.reachable(ex, o.path, "to_unixtime declines although its pattern matched")
+            continue
+        variant, f = ok_payload(o)
+        if variant != "Number" or not (isinstance(f[1], EnumV) and f[1].variant == "Raw"):
+            ctx.failures.append(("to_unixtime does not return a Raw number", {}, None))
+            continue
+        for k in ("Time", "Date", "DateTime"):
+            if not ex.feasible(o.path, tag_is(ex, src, k)):
+                continue
+            seen.add(k)
+            v, _ = tz_fields(src, k)
+            want = (v.total() if k != "Date" else v.days * 86400) - models.EPOCH_DAYS * 86400
+            rp2 = ("m_replay_to_unixtime", [({"Time": 0, "Date": 1, "DateTime": 2}[k], "u8"), (v.days, "i64"), (v.secs if k != "Date" else 0, "u32")])
+            ctx.claim(ex, o.path.add(tag_is(ex, src, k)), f[0].t == z3.ToReal(want), "'<%s> as unix' is not the number of seconds from the epoch" % k, rp2)
+    if seen != {"Time", "Date", "DateTime"}:
+        ctx.failures.append(("to_unixtime: kinds without an Ok path: %s" % sorted({"Time", "Date", "DateTime"} - seen), {}, None))
+
+
+# ============================================================================ C09
+@spec("C09", "m_to_duration_dates", "to_duration (MIR -> SMT): 'A to B' on two dates is the absolute number of days between them (as a duration), symmetric in A and B; on two times the absolute difference of the instants; no panic")
+def _(ctx):
+    ex, fields, toks, args, cfgv, tkv = setup_rule("to_duration", "real")
+    outs, _ = run_fn(ex, "duration_rules::to_duration", args)
+    ctx.part.functions.append("duration_rules::to_duration")
+    ctx.paths += len(outs)
+    a, b = toks["source"], toks["target"]
+    seen = set()
+    for o in outs:
+        if o.kind == "panic":
+            ctx.reachable(ex, o.path, "to_duration can panic: " + o.msg)
+            continue
+        if is_err(o):
+            # the patterns bind two times or two dates
+            ctx.reachable(ex, o.path.add(z3.Or(z3.And(tag_is(ex, a, "Date"), tag_is(ex, b, "Date")), z3.And(tag_is(ex, a, "Time"), tag_is(ex, b, "Time")))),
+                          "to_duration declines two dates / two times")
+            continue
+        secs = duration_payload(o)
+        if secs is None:
+            ctx.failures.append(("to_duration returns something that is not a duration", {}, None))
+            continue
+        for k in ("Date", "Time"):
+            cond = z3.And(tag_is(ex, a, k), tag_is(ex, b, k))
+            if not ex.feasible(o.path, cond):
+                continue
+            seen.add(k)
+            va, _ = tz_fields(a, k)
+            vb, _ = tz_fields(b, k)
+            want = abs_(va.days - vb.days) * 86400 if k == "Date" else abs_(va.total() - vb.total())
+            rp = ("m_replay_to_duration_dates", [(va.days, "i64"), (vb.days, "i64")]) if k == "Date" else None
+            ctx.claim(ex, o.path.add(cond), secs == want, "'A to B' on two %ss is not the absolute difference" % k.lower(), rp)
+    if seen != {"Date", "Time"}:
+        ctx.failures.append(("to_duration: kinds without an Ok path: %s" % sorted({"Date", "Time"} - seen), {}, None))
